@@ -529,6 +529,230 @@ example : lookupLines demoEnv demoLines "web2" = .ok
     [("user", .str "global"), ("identityfile", .list ["k1"]), ("proxycommand", .str "ssh gw"),
      ("hostname", .str "web2")] := by rfl
 
+/-! ## every config (Match host / user / final included): first obtained in visiting order
+
+`Match host`, `Match user` and `Match final` are evaluated against the options obtained *so far* and depend on the
+pass, so "the first block that applies" has to be read dynamically: `appliedIn` lists the configs of the blocks that
+apply **at the moment they are visited**.  The theorem below holds for every config without `Match exec`. -/
+
+/-- the configs of the blocks that apply when `_lookup` visits them (options evolve as blocks are merged) -/
+def appliedIn (env : Env) (hostname : String) (canonical final : Bool) : List Block → Dict → Except Err (List Dict)
+  | [], _ => .ok []
+  | b :: bs, opts =>
+    match blockApplies env b hostname canonical final opts with
+    | .error e => .error e
+    | .ok true =>
+      match appliedIn env hostname canonical final bs (mergeBlock opts b.config) with
+      | .error e => .error e
+      | .ok cfgs => .ok (b.config :: cfgs)
+    | .ok false => appliedIn env hostname canonical final bs opts
+
+/-- a `_lookup` pass merges exactly the configs of the blocks that applied when visited, in order -/
+theorem lookupPass_eq_applied (env : Env) (hostname : String) (canonical final : Bool) (blocks : List Block)
+    (opts : Dict) :
+    lookupPass env hostname canonical final blocks opts =
+      match appliedIn env hostname canonical final blocks opts with
+      | .error e => .error e
+      | .ok cfgs => .ok (mergeAll opts cfgs) := by
+  induction blocks generalizing opts with
+  | nil => rfl
+  | cons b bs ih =>
+    simp only [lookupPass, appliedIn]
+    cases hb : blockApplies env b hostname canonical final opts with
+    | error e => rfl
+    | ok r =>
+      cases r with
+      | false => simp only; exact ih opts
+      | true =>
+        simp only
+        rw [ih]
+        cases appliedIn env hostname canonical final bs (mergeBlock opts b.config) with
+        | error e => rfl
+        | ok cfgs => rfl
+
+private theorem appliedIn_mem (env : Env) (hostname : String) (canonical final : Bool) (blocks : List Block)
+    (opts : Dict) (cfgs : List Dict) (h : appliedIn env hostname canonical final blocks opts = .ok cfgs) :
+    ∀ c ∈ cfgs, ∃ b ∈ blocks, c = b.config := by
+  induction blocks generalizing opts cfgs with
+  | nil =>
+    simp only [appliedIn, Except.ok.injEq] at h
+    subst h; simp
+  | cons b bs ih =>
+    simp only [appliedIn] at h
+    cases hb : blockApplies env b hostname canonical final opts with
+    | error e => rw [hb] at h; cases h
+    | ok r =>
+      rw [hb] at h
+      cases r with
+      | false =>
+        simp only at h
+        intro c hc
+        obtain ⟨b', hb', he⟩ := ih opts cfgs h c hc
+        exact ⟨b', by simp [hb'], he⟩
+      | true =>
+        simp only at h
+        cases hr : appliedIn env hostname canonical final bs (mergeBlock opts b.config) with
+        | error e => rw [hr] at h; cases h
+        | ok cfgs' =>
+          rw [hr] at h
+          simp only [Except.ok.injEq] at h
+          subst h
+          intro c hc
+          simp only [List.mem_cons] at hc
+          rcases hc with hc | hc
+          · exact ⟨b, by simp, hc⟩
+          · obtain ⟨b', hb', he⟩ := ih _ cfgs' hr c hc
+            exact ⟨b', by simp [hb'], he⟩
+
+/-- the options after the first pass and the HostName default -/
+def afterFirstPass (a1 : List Dict) (hostname : String) : Dict :=
+  let o1 := mergeAll [] a1
+  if o1.has "hostname" then o1 else o1.set "hostname" (.str hostname)
+
+/-- **First obtained, every config.**  Let `a1` be the configs of the blocks that apply when the first pass visits
+them and `a2` those of the second (`final`) pass, which starts from the first pass' options plus the HostName
+default.  Then for every ordinary key the dict that `lookup` expands holds the value of the first config that has the
+key in the order  `a1`, the default `HostName = <looked-up name>`, `a2`;  `identityfile` is the duplicate-free
+accumulation over `a1 ++ a2`.  Holds for all Match criteria except `exec` (for which the model has no verdict). -/
+theorem lookup_first_obtained_visiting (env : Env) (blocks : List Block) (hostname : String)
+    (hn : ∀ b ∈ blocks, NodupKeys b.config) (a1 a2 : List Dict)
+    (h1 : appliedIn env hostname false false blocks [] = .ok a1)
+    (hcanon : canonRequested (afterFirstPass a1 hostname) = false)
+    (hdots : (afterFirstPass a1 hostname).has "canonicalizemaxdots" = false)
+    (h2 : appliedIn env hostname false true blocks (afterFirstPass a1 hostname) = .ok a2) :
+    ∃ opts, lookupOptions env blocks hostname = .ok opts ∧
+      (∀ k, k ≠ "identityfile" →
+        opts.get k = firstObtained (a1 ++ [[("hostname", .str hostname)]] ++ a2) k) ∧
+      opts.get "identityfile" =
+        (if (a1 ++ a2).all (fun c => (c.get "identityfile").isNone) then none
+         else some (.list (identityFiles (a1 ++ a2)))) := by
+  have hn1 : ∀ c ∈ a1, NodupKeys c := by
+    intro c hc
+    obtain ⟨b, hb, he⟩ := appliedIn_mem env hostname false false blocks [] a1 h1 c hc
+    rw [he]; exact hn b hb
+  have hn2 : ∀ c ∈ a2, NodupKeys c := by
+    intro c hc
+    obtain ⟨b, hb, he⟩ := appliedIn_mem env hostname false true blocks _ a2 h2 c hc
+    rw [he]; exact hn b hb
+  refine ⟨mergeAll (afterFirstPass a1 hostname) a2, ?_, ?_, ?_⟩
+  · unfold lookupOptions
+    rw [lookupPass_eq_applied, h1]
+    simp only
+    rw [show (if (mergeAll [] a1).has "hostname" then mergeAll [] a1
+          else (mergeAll [] a1).set "hostname" (.str hostname)) = afterFirstPass a1 hostname from rfl]
+    rw [hcanon, hdots]
+    simp only [Bool.or_self, Bool.false_eq_true, if_false]
+    rw [lookupPass_eq_applied, h2]
+  · intro k hk
+    rw [mergeAll_get _ a2 k hk hn2]
+    have ho1 : ∀ k', k' ≠ "identityfile" → (mergeAll [] a1).get k' = firstObtained a1 k' := by
+      intro k' hk'
+      rw [mergeAll_get [] a1 k' hk' hn1]; rfl
+    unfold firstObtained
+    rw [List.findSome?_append, List.findSome?_append]
+    by_cases hkh : k = "hostname"
+    · subst hkh
+      have := ho1 "hostname" (by decide)
+      unfold firstObtained at this
+      unfold afterFirstPass
+      simp only
+      cases hv : (mergeAll [] a1).get "hostname" with
+      | none =>
+        have hh : (mergeAll [] a1).has "hostname" = false := by simp [Dict.has, hv]
+        rw [hv] at this
+        simp [hh, Dict.get_set_same, ← this, Dict.get_cons]
+      | some v =>
+        have hh : (mergeAll [] a1).has "hostname" = true := by simp [Dict.has, hv]
+        rw [hv] at this
+        simp [hh, hv, ← this]
+    · have hget : (afterFirstPass a1 hostname).get k = (mergeAll [] a1).get k := by
+        unfold afterFirstPass
+        simp only
+        split
+        · rfl
+        · exact Dict.get_set_other _ _ _ _ hkh
+      rw [hget, ho1 k hk]
+      unfold firstObtained
+      cases List.findSome? (fun c => c.get k) a1 with
+      | some v => simp
+      | none => simp [Dict.get_cons, hkh, Dict.get_nil]
+  · rw [mergeAll_get_identityfile _ a2 hn2]
+    have hget : (afterFirstPass a1 hostname).get "identityfile" = (mergeAll [] a1).get "identityfile" := by
+      unfold afterFirstPass
+      simp only
+      split
+      · rfl
+      · exact Dict.get_set_other _ _ _ _ (by decide)
+    rw [hget, mergeAll_get_identityfile [] a1 hn1]
+    have hflat : ∀ l : List Dict, l.all (fun c => (c.get "identityfile").isNone) = true →
+        (l.flatMap fun c => listOf (c.get "identityfile")) = [] := by
+      intro l hl
+      rw [List.flatMap_eq_nil_iff]
+      intro c hc
+      have := List.all_eq_true.mp hl c hc
+      simp only [Option.isNone_iff_eq_none] at this
+      simp [this, listOf]
+    have hext : ∀ (a l1 l2 : List String), extendDedup (extendDedup a l1) l2 = extendDedup a (l1 ++ l2) := by
+      intro a l1 l2; simp [extendDedup, List.foldl_append]
+    simp only [List.all_append, Dict.get_nil, listOf, identityFiles, List.flatMap_append]
+    simp only [listOf] at hflat
+    by_cases hA1 : a1.all (fun c => (c.get "identityfile").isNone) = true
+    · by_cases hA2 : a2.all (fun c => (c.get "identityfile").isNone) = true
+      · simp [hA1, hA2]
+      · simp [hA1, hA2, hflat a1 hA1, listOf]
+    · by_cases hA2 : a2.all (fun c => (c.get "identityfile").isNone) = true
+      · simp [hA1, hA2, hflat a2 hA2, listOf]
+      · simp [hA1, hA2, listOf, hext]
+
+/-- `Match [!]host P` is tested against the HostName obtained **so far** (else the looked-up name) -/
+theorem match_host_applies (env : Env) (hostname : String) (canonical final : Bool) (opts cfg : Dict)
+    (param : String) (neg : Bool) :
+    blockApplies env ⟨none, some [⟨"host", some param, neg⟩], cfg⟩ hostname canonical final opts =
+      .ok (patternMatchesStr param (orElse (strOf (opts.get "hostname")) hostname) != neg) := by
+  simp only [blockApplies, Option.getD_none, patternMatches, patternLoop, Bool.false_eq_true, if_false,
+    Option.getD_some, doesMatch, doesMatchLoop,
+    show ("host" == "canonical") = false by decide, show ("host" == "final") = false by decide,
+    show ("host" == "all") = false by decide, BEq.rfl, if_true, Bool.false_and, shouldFail]
+  cases neg <;> cases patternMatchesStr param (orElse (strOf (opts.get "hostname")) hostname) <;> simp
+
+/-- `Match [!]user P` is tested against the User obtained **so far** (else the local user) -/
+theorem match_user_applies (env : Env) (hostname : String) (canonical final : Bool) (opts cfg : Dict)
+    (param : String) (neg : Bool) :
+    blockApplies env ⟨none, some [⟨"user", some param, neg⟩], cfg⟩ hostname canonical final opts =
+      .ok (patternMatchesStr param (orElse (strOf (opts.get "user")) env.localUser) != neg) := by
+  simp only [blockApplies, Option.getD_none, patternMatches, patternLoop, Bool.false_eq_true, if_false,
+    Option.getD_some, doesMatch, doesMatchLoop,
+    show ("user" == "canonical") = false by decide, show ("user" == "final") = false by decide,
+    show ("user" == "all") = false by decide, show ("user" == "host") = false by decide,
+    show ("user" == "originalhost") = false by decide, BEq.rfl, if_true, Bool.false_and, shouldFail]
+  cases neg <;> cases patternMatchesStr param (orElse (strOf (opts.get "user")) env.localUser) <;> simp
+
+/-- `Match final` applies in the second pass only (`Match !final` in the first only) -/
+theorem match_final_applies (env : Env) (hostname : String) (canonical final : Bool) (opts cfg : Dict) (neg : Bool) :
+    blockApplies env ⟨none, some [⟨"final", none, neg⟩], cfg⟩ hostname canonical final opts = .ok (final != neg) := by
+  simp only [blockApplies, Option.getD_none, patternMatches, patternLoop, Bool.false_eq_true, if_false,
+    Option.getD_some, doesMatch, doesMatchLoop,
+    show ("final" == "canonical") = false by decide, BEq.rfl, if_true, Bool.false_and, shouldFail]
+  cases neg <;> cases final <;> simp
+
+/-! ### non-vacuity: a `Match host` block that applies only once HostName is known, and a `Match final` block -/
+
+def dynBlocks : List Block :=
+  [⟨some ["*"], none, []⟩,
+   ⟨none, some [⟨"host", some "*.example.com", false⟩], [("user", .str "corp")]⟩,
+   ⟨some ["web1"], none, [("hostname", .str "web1.example.com"), ("user", .str "late")]⟩,
+   ⟨none, some [⟨"final", none, false⟩], [("port", .str "2222"), ("user", .str "final")]⟩]
+
+example : appliedIn demoEnv "web1" false false dynBlocks [] =
+    .ok [[], [("hostname", .str "web1.example.com"), ("user", .str "late")]] := by rfl
+example : appliedIn demoEnv "web1" false true dynBlocks (afterFirstPass
+      [[], [("hostname", .str "web1.example.com"), ("user", .str "late")]] "web1") =
+    .ok [[], [("user", .str "corp")], [("hostname", .str "web1.example.com"), ("user", .str "late")],
+         [("port", .str "2222"), ("user", .str "final")]] := by rfl
+/-- so `user` is "late" (obtained in pass 1) although the `Match host` block stands earlier in the file -/
+example : lookupOptions demoEnv dynBlocks "web1" =
+    .ok [("hostname", .str "web1.example.com"), ("user", .str "late"), ("port", .str "2222")] := by rfl
+
 /-! ## token expansion: HostName first, every other option sees the expanded HostName -/
 
 /-- the options with HostName expanded (what every other option's `%h` refers to) -/
